@@ -267,8 +267,10 @@ pub struct Case {
 
 const PATHS: [&str; 5] = ["/z", "/logs/access.log.gz", "/export/dump.tgz?x=1", "/archive.zip", "/data.Z"];
 
-const OTHER_FIELDS: [&str; 7] = [
+const OTHER_FIELDS: [&str; 8] = [
     "",
+    // (used with the coding declared in Transfer-Encoding: each of the two fields is looked at)
+    "Content-Encoding: identity",
     "Content-Type: application/gzip",
     "Content-Type: application/x-gzip",
     "Content-Type: application/octet-stream",
@@ -776,6 +778,14 @@ fn cases_for(s: &Stream, tier: Tier) -> Vec<Case> {
                 c.passthrough = Some("identity".into());
                 v.push(c);
             }
+        }
+    }
+    // the coding declared in Transfer-Encoding next to a Content-Encoding field that names something else
+    if s.name.contains(".l6.") || s.name.contains(".fixed.") {
+        for r in [ReadMode::Const(7), ReadMode::Bytes] {
+            let mut c = mk(Framing::Chunked, nsp - 1, Policy::default(), r, Damage::None);
+            c.other = 1;
+            v.push(c);
         }
     }
     // reads into an empty buffer in between
